@@ -192,7 +192,14 @@ impl AnimationAppExt for App {
     fn register_animation_key<T: Component, K: AnimationKey>(&mut self) -> &mut Self {
         self.add_systems(
             Update,
-            (chain_animations::<K, T>, select_animation::<K, T>).before(animate::<T>),
+            // Chain first, then select: the order used to be unspecified. When `select_animation`
+            // happened to run first, a key set by the chain was only acted on one frame later, and
+            // a user assignment made in that gap (back to the previously acted key) was mistaken for
+            // "no change" - the animation never restarted and the stale `Ended` animator let the
+            // end of another animator on the entity fire the chain again.
+            (chain_animations::<K, T>, select_animation::<K, T>)
+                .chain()
+                .before(animate::<T>),
         );
         self
     }
